@@ -18,6 +18,7 @@ From Verif Require Wire.Msgpack Wire.MsgpackProofs Wire.MsgpackRT.
 From Verif Require Wire.Simple Wire.SimpleProofs Wire.SimpleSkip.
 From Verif Require Wire.Binc Wire.BincProofs.
 From Verif Require Generic.Types Generic.Enc Generic.Dec C01.Model.
+From Verif Require Wire.Json Wire.JsonRT Wire.JsonSkip C11.InstJson C11.ProofsJson Properties.W_json.
 Import ListNotations.
 
 (* ---------------- the sequence theorem, once, over the abstract laws ---------------- *)
@@ -207,6 +208,61 @@ Section Binc.
   Print Assumptions C11_binc_seq.
 End Binc.
 
+
+(* ---------------- json: the pending token is the per-instance state, slack = 1 ---------------- *)
+(* PARTIAL, all three: they inherit the hypothesis [leaf_laws L] of the json wire theorems
+   (Properties/W_json.v: the lexical laws of string quoting / float / time texts, property C09's domain,
+   not yet discharged for the concrete leaf c09_leaf).  Everything else - the tokenizer, the container
+   grammar, the walker, the sequence induction - is proved. *)
+Section Json.
+  Import Wire.Json Wire.JsonRT Wire.JsonSkip.
+
+  (* decode and the walker, started in ANY tokenizer state that presents the value's text [enc_at ...]
+     followed by [tl] (a bare number must be followed by a byte that ends it), return norm of the value /
+     exactly the text, and leave the SAME tokenizer state [after ..]: nothing pending and [tl] unread,
+     except after a bare number, whose terminating byte is the pending token (the permitted delimiter) *)
+  Theorem C11_json_skip_partial : forall (L : leaf), leaf_laws L ->
+    forall (o : eopts) (D : dopts) (lvl : N) (i : item) (s : st) (tl : list N) (fuel : nat) (dp : Z),
+    jwf L o D false i -> (dp + Z.of_nat (depth i) < maxdepth D)%Z ->
+    advance s = advance (mkst 0 (enc_at L o false lvl i ++ tl)) -> delim_ok (isnum L o false i) tl ->
+    (2 * length (enc_at L o false lvl i) <= fuel)%nat ->
+    dec L D fuel dp false s = Ok (norm L o D false i, after (isnum L o false i) tl)
+    /\ nvb s = Ok (enc_at L o false lvl i, after (isnum L o false i) tl).
+  Proof. exact ProofsJson.json_skip_lemma. Qed.
+  Print Assumptions C11_json_skip_partial.
+
+  (* raw: what nextValueBytes hands back is exactly the value's text (since FWjson-1 without the byte that
+     ends a number), and re-emitted in front of anything that may follow it decodes to the original *)
+  Theorem C11_json_raw_partial : forall (L : leaf), leaf_laws L ->
+    forall (o : eopts) (D : dopts) (lvl : N) (i : item) (s : st) (tl tl' : list N) (b : list N) (s' : st),
+    jwf L o D false i -> (Z.of_nat (depth i) < maxdepth D)%Z ->
+    advance s = advance (mkst 0 (enc_at L o false lvl i ++ tl)) -> delim_ok (isnum L o false i) tl ->
+    delim_ok (isnum L o false i) tl' ->
+    nvb s = Ok (b, s') ->
+    b = enc_at L o false lvl i
+    /\ dec L D (2 * length b) 0 false (st0 (b ++ tl')) = Ok (norm L o D false i, after (isnum L o false i) tl').
+  Proof. exact ProofsJson.json_raw_lemma. Qed.
+  Print Assumptions C11_json_raw_partial.
+
+  (* sequences: each Encode call writes [enc_top] (the text, then the TermWhitespace byte if on); any number
+     of values, any consumer per position; every value satisfies [InstJson.ok] (jwf, nesting below MaxDepth, a
+     bare number is followed by TermWhitespace / a non-number byte / the end).  The calls return what
+     [project] says (Raw = the text alone), the unread count after each call is within ONE byte of the exact
+     position ([close 1]: the TermWhitespace byte still unread, or the byte after a bare number already
+     taken), and the final tokenizer state presents exactly the trailing bytes. *)
+  Theorem C11_json_seq_partial : forall (L : leaf), leaf_laws L ->
+    forall (o : eopts) (D : dopts) (TY V : Type) (typed : TY -> item -> V)
+      (vs : list item) (ms : list (mode TY)) (tl : list N),
+    length ms = length vs -> Seq.ok_seq (InstJson.F L o D) (InstJson.ok L o D) vs tt tl ->
+    exists ns s',
+      Seq.dec_seq (InstJson.F L o D) TY V typed ms (st0 (Seq.bytes_seq (InstJson.F L o D) vs tt ++ tl))
+        = Ok (Seq.project (InstJson.F L o D) TY V typed ms vs tt, ns, s')
+      /\ Forall2 (close 1) ns (Seq.rems (InstJson.F L o D) vs tt tl)
+      /\ advance s' = advance (mkst 0 tl) /\ (length tl - 1 <= length (inp s') <= length tl + 1)%nat.
+  Proof. exact ProofsJson.json_seq_lemma. Qed.
+  Print Assumptions C11_json_seq_partial.
+End Json.
+
 (* ---------------- non-vacuity ---------------- *)
 
 (* binc, AsSymbols on: three values sharing the symbol "key"; the value that DEFINES the symbol is
@@ -254,3 +310,20 @@ Example C11_extents_nonvacuous :
    skipf (SimpleI.F O D) (Simple.enc O false i ++ [9; 9]%N) = Ok (Simple.enc O false i, [9; 9]%N) /\
    decf (SimpleI.F O D) (Simple.enc O false i ++ [9; 9]%N) = Ok (Simple.norm O D false i, [9; 9]%N)).
 Proof. cbv zeta. repeat apply conj; vm_compute; reflexivity. Qed.
+
+(* json, TermWhitespace on, C09's string code with observed float texts as the leaf: 123, [true,"a"], -5,
+   {"k":1.5} read back as skip / raw / naked / raw: Raw holds the text without the delimiter; the unread
+   counts are the exact ones (16, 5, 13, 0 after the TermWhitespace bytes) give or take the one byte *)
+Example C11_json_seq_nonvacuous :
+  let L := W_json.exL in
+  let o := Json.mkeopts 0 0 false true true false false in
+  let D := Json.mkdopts false false true true 0 in
+  let vs := [IUint 123%N; IArr [IBool true; IStr [97]%N]; IInt (-5); IMap [(IStr [107]%N, IF64 4609434218613702656%N)]] in
+  Seq.bytes_seq (InstJson.F L o D) vs tt
+    = [49; 50; 51; 32; 91; 116; 114; 117; 101; 44; 34; 97; 34; 93; 32; 45; 53; 32; 123; 34; 107; 34; 58; 49; 46; 53; 125; 32]%N /\
+  Seq.rems (InstJson.F L o D) vs tt [] = [24; 13; 10; 0]%nat /\
+  exists s',
+  Seq.dec_seq (InstJson.F L o D) unit unit (fun _ _ => tt) [MSkip; MRaw; MNaked; MRaw] (Json.st0 (Seq.bytes_seq (InstJson.F L o D) vs tt))
+    = Ok ([OSkipped; ORaw [91; 116; 114; 117; 101; 44; 34; 97; 34; 93]%N; ONaked (IInt (-5));
+           ORaw [123; 34; 107; 34; 58; 49; 46; 53; 125]%N], [24; 14; 10; 1]%nat, s').
+Proof. cbv zeta. split; [vm_compute; reflexivity|split; [vm_compute; reflexivity|eexists; vm_compute; reflexivity]]. Qed.
